@@ -741,6 +741,9 @@ func (s *Service) ClientClose(client *ClientService) {
 			}
 			s.Listeners = Listeners
 
+			// remove the external c2 listeners and endpoints this client started
+			s.Teamserver.ListenerServiceExc2Remove(client)
+
 			// close client connection
 			if s.clients[i].Conn != nil {
 				err := s.clients[i].Conn.Close()
